@@ -7,7 +7,7 @@ from lib import *
 from explore import *
 from apiops import *
 
-E_ACUTE, E_COMB = 'é', 'é'
+E_ACUTE, E_COMB = "\u00e9", "e\u0301"
 
 
 class U1(Universe):
